@@ -298,7 +298,8 @@ class SimKernel:
                 self.chld_pending = True
             elif sig == 6:
                 if not (p.st == "hung" and p.ignore):
-                    p.st, p.status = "zombie", 6
+                    # (abrt_core: SIGABRT takes its default action with core dumps enabled: status 6 | 0x80)
+                    p.st, p.status = "zombie", 134 if getattr(self, "abrt_core", False) else 6
                     self.chld_pending = True
             elif sig in (15, 3) and self.ticks < getattr(p, "boot_until", 0):
                 pass                                   # swallowed by the still booting child
